@@ -76,6 +76,19 @@ theorem parked_is_released (held wake : Msg) (w : W) (hinv : SbufInv w.st) (hf :
   · intro h
     exact ((after_wake_only_others wake w hinv _).mp h).2 hnode
 
+/-- **Held, kept through everything else, written at the node's next wake.**  A command held for a node stays held
+along any history in which that node's wake signal does not arrive and no later `send` replaces it (`C07.held_until_wake`:
+re-presentations of the node, its other traffic, other nodes' wakes, rejected lines, failing and cancelled writes
+included), and the next wake signal of the node — its writes succeeding — hands it to the transport and removes it. -/
+theorem held_released_at_next_wake (held wake : Msg) (ops : List Op) (st : St) (hinv : SbufInv st)
+    (hheld : st.sbuf.get? held.key = some held) (hq : C07.QuietAlong held.key held.node st ops)
+    (hnode : held.node = wake.node) :
+    (⟨encode held, true⟩ : WriteEvt) ∈ (flush wake { st := stateAfter st ops }).2.writes ∧
+    (held.key, held) ∉ (flush wake { st := stateAfter st ops }).2.st.sbuf := by
+  have h1 := C07.held_until_wake held.key held ops st hinv hheld hq
+  have hinv' := C07.sbufInv_history ops st hinv
+  exact parked_is_released held wake { st := stateAfter st ops } hinv' rfl (PDict.get?_eq_some_mem h1) hnode
+
 /-- **An object that is not a message** is rejected as an invalid message: nothing written, nothing changed. -/
 theorem not_a_message (b : Bool) (w : W) : apiSend none b w = (.error (.lib .invalidMessage), w) := rfl
 
